@@ -16,7 +16,7 @@ def _pay(rng, k):
 class Scenario:
     def __init__(self, rng, role='server', lenreq=False, hostile=0.0, with_close=True, steps=12, frag=0.0,
                  close_mode=None, garbage=0.0, race=0.0, on_close_raises=False,
-                 app_raises_at_close=False, out_frag=False):
+                 app_raises_at_close=False, out_frag=False, close_during_on_close=0):
         self.rng = rng
         self.race = race                # probability that a local action shares its loop iteration with the next peer event
         self.raced = 0
@@ -29,6 +29,8 @@ class Scenario:
         self.out_frag = out_frag
         self.rec.on_close_raises = on_close_raises
         self.app_raises_at_close = app_raises_at_close
+        self.close_during_on_close = close_during_on_close     # on_close suspends this many iterations; close() lands inside
+        self.rec.on_close_suspends = close_during_on_close
         self.first = 2 if role == 'server' else 1
         self.peer_next = 1 if role == 'server' else 2       # next stream id the peer opens
         self.hostile = hostile
@@ -594,6 +596,15 @@ class Scenario:
                     self.rec.t.inject_eof()
                 else:
                     self.rec.t.inject_error()
+                if self.close_during_on_close and mode in ('eof', 'error', 'cut'):
+                    # the application's on_close hook is still running when close() is called on the same endpoint
+                    for _ in range(40):
+                        if self.rec.on_close_calls:
+                            break
+                        self.rec.loop.tick()
+                    import asyncio
+                    self.rec.act(lambda: asyncio.ensure_future(self.rec.ep.close()))
+                    self.closed_during_on_close = True
                 self.rec.settle()
                 self.closed = True
                 self.close_used = mode
